@@ -142,8 +142,10 @@ def plan(ctx):
             su.append(F.Suite(TVAL[g], "v", {1: 2, 2: 2, 3: 1}, grid=g))
             su.append(F.Suite(TGRP[g], "kv3", {1: 2, 2: 2, 3: 0}, grid=g))
         return su
-    su = [F.Suite(REDUCE + SCAN + n2(WVAL), "v", {1: 1, 2: 1, 3: 1}),
-          F.Suite(n13(WVAL), "v", {1: 1, 2: 1, 3: 0}),
+    q3 = ["Series.mean", "DataFrame.sum", "rolling(2).sum", "expanding.var", "ewm(com=1).mean",
+          "window(n=2).sum", "window(n=2).full", "window(n=2).value_counts"]
+    su = [F.Suite(REDUCE + SCAN + WVAL, "v", {1: 1, 2: 1, 3: 0}),
+          F.Suite(q3, "v", {3: 1}),
           F.Suite(GRP + n2(WGRP) + core(n13(WGRP)), "kv", {1: 0, 2: 0}),
           F.Suite(GRP + n2(WGRP) + core(n13(WGRP)), "kv3", {1: 1, 2: 1, 3: 0}),
           F.Suite(LONG[:2], "one", {5: 0})]
